@@ -163,6 +163,7 @@ def main(argv):
 
 
 def replay(mod, ctx, path):
+    if hasattr(mod, "replay"): return mod.replay(ctx, path)
     text = open(path).read()
     if path.endswith(".json"):
         print(text); return 1
@@ -240,12 +241,17 @@ def run_property(mod, ctx, t0):
     n_thm = len(ls["theorems"])
     n_tab = len(getattr(mod, "GEN_TABLES", []))
     obligations = n_thm + n_tab + kres["suites"]
-    discharged = (n_thm if not p_broken else max(0, n_thm - len(p_broken))) + (n_tab if ls["tables_ok"] else 0) + (kres["suites"] - len({v.sig for v in kviol}) if kres["suites"] else 0)
+    new_k = {v.sig for v in kviol if v.sig not in known}
+    discharged = (n_thm if not p_broken else max(0, n_thm - len(p_broken))) + (n_tab if ls["tables_ok"] else 0) + (max(0, kres["suites"] - len(new_k)) if kres["suites"] else 0)
+    known_reported = sorted({v.sig for v in violations if v.sig in known})
     axs = sorted({a for l in ls["axioms"].values() for a in l})
     cov = {
         "obligations": obligations, "discharged": max(0, discharged),
         "checker_cmd": "cd lean && lake build && lake env lean .build/Audit.lean (#print axioms of every property theorem); ./check %s --tier %s" % (pid, ctx.tier),
         "trusted_base": ["Lean 4.33.0 kernel", "axioms used by the property theorems: %s" % (axs or "none")] + getattr(mod, "TRUSTED", []),
+        "known_findings_reported": known_reported,
+        "known_findings_note": ("a correspondence / enumeration suite whose only violations are findings listed in known_findings.txt counts as discharged here; the findings "
+                                "themselves are printed as KNOWN-FINDING lines and listed above: for them the property does NOT hold on this tree") if known_reported else "",
         "theorems": ls["theorems"], "axioms_by_theorem": ls["axioms"],
         "generated_tables": getattr(mod, "GEN_TABLES", []),
         "k_suites": kres["suites"], "evaluations": kres["evaluations"],
@@ -257,7 +263,9 @@ def run_property(mod, ctx, t0):
         "tree_hash": stamp.get("tree_hash"),
     }
     core.write_evidence(pid, ctx.tier, ctx.seed, getattr(mod, "LEVEL", "proof"), cov, time.time() - t0, nviol, getattr(mod, "ASSUMPTIONS", []))
-    if rc == 0:
+    if rc == 0 and any(v.sig in known for v in violations):
+        print("%s: no violation beyond the listed known findings (%d theorems, %d tables, %d correspondence suites, %d evaluations)" % (pid, n_thm, n_tab, kres["suites"], kres["evaluations"]))
+    elif rc == 0:
         print("%s: holds on everything explored (%d theorems, %d tables, %d correspondence suites, %d evaluations)" % (pid, n_thm, n_tab, kres["suites"], kres["evaluations"]))
     return rc
 
